@@ -487,3 +487,178 @@ def rule_op_tables(ctx, P, r):
                 r.undecided(inst, loc=rets[0].loc, msg=f'unrecognised compatibility predicate: {sorted(exprs)}')
             else:
                 r.info(inst, loc=rets[0].loc, msg=f'out-of-scope backend with predicate {sorted(exprs)}')
+
+# ---------------------------------------------------------------- R09a
+def _loop_of(f, block):
+    from ..cfg import natural_loops
+    best = None
+    for h, body in natural_loops(f).items():
+        if block in body and (best is None or len(body) < len(best[1])):
+            best = (h, body)
+    return best
+
+def validation_loop_facts(P, f, vcall, frag_param, count_param):
+    """-> dict(ok=bool, why=str, bound_exit=(src,dst), error_exits=[...]) for the loop around a per-fragment validation call"""
+    from ..vflow import derived_pointers
+    L = _loop_of(f, vcall.bb)
+    if L is None:
+        return None
+    h, body = L
+    res = {'header': h, 'body': body, 'problems': []}
+    # induction variable and bound
+    t = h.insts[-1]
+    iv = None
+    if t.op == 'br' and len(t.targets) == 2 and t.ops:
+        c = f.defs.get(t.ops[0])
+        if c is not None and c.op == 'icmp' and c.pred in ('slt', 'ult'):
+            a, b = strip_int_casts(f, c.ops[0]), strip_int_casts(f, c.ops[1])
+            ad = f.defs.get(a)
+            if ad is not None and ad.op == 'phi' and ad.bb is h:
+                inc0 = any(v == '0' for v, l in ad.incoming if f.blocks[l] not in body)
+                step1 = False
+                for v, l in ad.incoming:
+                    if f.blocks[l] in body:
+                        d = f.defs.get(v)
+                        if d is not None and d.op == 'add' and a in d.ops and '1' in d.ops:
+                            step1 = True
+                if inc0 and step1 and b == f.params[count_param][1]:
+                    iv = a
+                    res['bound_exit'] = (h, f.blocks[t.targets[1]])
+                    if f.blocks[t.targets[1]] in body:
+                        res['problems'].append('bound exit stays in the loop')
+    if iv is None:
+        res['problems'].append('loop is not "for (i = 0; i < num_fragments; i++)" over the fragment count parameter')
+        return res
+    # argument of the validation call is fragments[i]
+    arg = strip_ptr_casts(f, vcall.ops[-1] if vcall.callee != '@is_invalid_fragment' else vcall.ops[1])
+    d = f.defs.get(arg)
+    okarg = False
+    if d is not None and d.op == 'load':
+        g = f.defs.get(d.ops[0])
+        if g is not None and g.op == 'getelementptr' and strip_ptr_casts(f, g.ops[0]) == f.params[frag_param][1] \
+           and strip_int_casts(f, g.ops[1]) == iv:
+            okarg = True
+    if not okarg:
+        res['problems'].append('validated value is not fragments[i]')
+    # exits
+    vres = vcall.res
+    err_edges = []
+    for b in body:
+        tt = b.insts[-1]
+        if tt.op == 'br' and len(tt.targets) == 2 and tt.ops:
+            c = f.defs.get(tt.ops[0])
+            if c is not None and c.op == 'icmp' and vres in [strip_int_casts(f, o) for o in c.ops] and '0' in c.ops:
+                nz = tt.targets[0] if c.pred == 'ne' else (tt.targets[1] if c.pred == 'eq' else None)
+                if nz is not None:
+                    err_edges.append((b, f.blocks[nz]))
+            elif c is not None and c.op == 'icmp' and c.ops[0] == vres and c.pred in ('slt', 'sgt') and c.ops[1] == '0':
+                err_edges.append((b, f.blocks[tt.targets[0]]))
+    res['err_edges'] = err_edges
+    if not err_edges:
+        res['problems'].append('result of the validation call is not tested')
+        return res
+    # error region = blocks reachable in the loop only through an error edge
+    err_region = set()
+    for (s, dd) in err_edges:
+        for x in reachable_from(dd):
+            if x in body or True:
+                others = reachable_from(f.entry, avoid_edges={(s, dd)})
+                if x not in others:
+                    err_region.add(x)
+    res['exits'] = []
+    for b in body:
+        for s in b.succs:
+            if s in body:
+                continue
+            if res.get('bound_exit') == (b, s):
+                continue
+            if (b, s) in err_edges or b in err_region:
+                res['exits'].append(('error', b, s))
+            else:
+                res['exits'].append(('other', b, s))
+                res['problems'].append(f'loop can be left at line {b.insts[-1].line} without finishing validation')
+    # the non-error continuation must not skip the increment: covered by iv step check + no other exits
+    return res
+
+def rule_validation_gates(ctx, P, r, ebad):
+    from ..guards import dominating_edges
+    for fname in ('liberasurecode_decode', 'liberasurecode_reconstruct_fragment'):
+        f, fp = param_by_name(ctx, P, fname, 'available_fragments')
+        _, cp = param_by_name(ctx, P, fname, 'num_fragments')
+        A, _ = __import__('lecverif.vflow', fromlist=['x']).derived_pointers(f, [f.params[fp][1]])
+        consumers = [i for i in f.insts() if i.op == 'call' and i.callee in ('@fragments_to_string', '@get_fragment_partition', '@is_invalid_fragment')
+                     and any(o in A for o in i.ops)]
+        loads = [i for i in f.insts() if i.op == 'load' and i.ops[0] in A]
+        vcalls = [i for i in f.insts() if i.op == 'call' and i.callee == '@is_invalid_fragment_header']
+        if not consumers:
+            raise AnalysisBroken(f'anchor vanished: no consumer of available_fragments in {fname}')
+        inst = f'{fname}: every supplied fragment header is validated before the first consumer'
+        if not vcalls:
+            r.fail(inst, func=f.name, sig='no header validation', loc=consumers[0].loc, msg=f'{consumers[0].callee} consumes fragment headers but is_invalid_fragment_header is never called')
+            continue
+        good = None
+        problems = []
+        for v in vcalls:
+            info = validation_loop_facts(P, f, v, fp, cp)
+            if info is None:
+                problems.append('validation call is not inside a loop over the fragments')
+                continue
+            if info['problems']:
+                problems += info['problems']
+                continue
+            good = (v, info)
+        if good is None:
+            r.fail(inst, func=f.name, sig='validation loop incomplete: ' + '; '.join(sorted(set(problems)))[:120], loc=vcalls[0].loc,
+                   msg='header validation does not cover all fragments: ' + '; '.join(sorted(set(problems))))
+            continue
+        v, info = good
+        be = info['bound_exit']
+        bad = [c for c in consumers if be not in dominating_edges(f, c.bb)]
+        if bad:
+            r.fail(inst, func=f.name, sig=f'{bad[0].callee} not dominated by validation', loc=bad[0].loc,
+                   msg=f'{bad[0].callee} at line {bad[0].line} can run before all headers were validated')
+        else:
+            r.ok(inst, func=f.name, loc=v.loc, facts={'consumers': [c.callee for c in consumers], 'loop_header_line': info['header'].insts[-1].line})
+        for kind, b, s in info['exits']:
+            vals = returns_via_edge(f, b, s)
+            if vals == {-ebad}:
+                r.ok(f'{fname}: invalid header => -EBADHEADER', func=f.name, loc=b.insts[-1].loc)
+            else:
+                r.fail(f'{fname}: invalid header => -EBADHEADER', func=f.name, sig=f'invalid header edge returns {sorted(map(str, vals))}', loc=b.insts[-1].loc,
+                       msg=f'the edge taken for an invalid header may return {sorted(map(str, vals))} instead of {-ebad}')
+    # single-fragment query
+    f, fp = param_by_name(ctx, P, 'liberasurecode_get_fragment_metadata', 'fragment')
+    from ..vflow import derived_pointers
+    A, _ = derived_pointers(f, [f.params[fp][1]])
+    vcalls = [i for i in f.insts() if i.op == 'call' and i.callee == '@is_invalid_fragment_header' and any(o in A for o in i.ops)]
+    cons = [i for i in f.insts() if (i.op == 'load' and i.ops[0] in A) or (i.op == 'call' and i is not (vcalls[0] if vcalls else None)
+            and i.callee not in LOGFNS and any(o in A for o in i.ops))]
+    inst = 'liberasurecode_get_fragment_metadata: header validated before any header byte is used'
+    if not cons:
+        raise AnalysisBroken('anchor vanished: get_fragment_metadata does not read the fragment')
+    if not vcalls:
+        r.fail(inst, func=f.name, sig='no header validation', loc=cons[0].loc, msg='fragment bytes are used without is_invalid_fragment_header')
+        return
+    v = vcalls[0]
+    okedge = None
+    for b in f.order:
+        t = b.insts[-1]
+        if t.op == 'br' and len(t.targets) == 2 and t.ops:
+            c = f.defs.get(t.ops[0])
+            if c is not None and c.op == 'icmp' and v.res in c.ops and '0' in c.ops and c.pred in ('ne', 'eq'):
+                okedge = (b, f.blocks[t.targets[1] if c.pred == 'ne' else t.targets[0]])
+                erredge = (b, f.blocks[t.targets[0] if c.pred == 'ne' else t.targets[1]])
+    if okedge is None:
+        r.fail(inst, func=f.name, sig='validation result not tested', loc=v.loc, msg='result of is_invalid_fragment_header is ignored')
+        return
+    bad = [c for c in cons if okedge not in dominating_edges(f, c.bb)]
+    if bad:
+        r.fail(inst, func=f.name, sig='consumer not dominated by validation', loc=bad[0].loc, msg=f'line {bad[0].line} uses the fragment before/without validation')
+    else:
+        r.ok(inst, func=f.name, loc=v.loc, facts={'consumers': len(cons)})
+    vals = returns_via_edge(f, *erredge)
+    if vals == {-ebad}:
+        r.ok('get_fragment_metadata: invalid header => -EBADHEADER', func=f.name, loc=v.loc)
+    else:
+        r.fail('get_fragment_metadata: invalid header => -EBADHEADER', func=f.name, sig=f'invalid header edge returns {sorted(map(str, vals))}', loc=v.loc,
+               msg=f'invalid header may return {sorted(map(str, vals))}')
